@@ -27,8 +27,10 @@ class Group(object):
     """Exact copy of one tabulated setting: integer rotations, translations in 24ths."""
 
     def __init__(self, no, choice):
-        from xfab import sg
-        g = sg.sg(sgno=no, cell_choice=choice)
+        # read the table class directly (not through the sg.sg lookup layer, whose behaviour - name handling,
+        # setting selection, any caching - is itself under test): the oracles then do not inherit its mistakes
+        from xfab import sglib
+        g = getattr(sglib, "Sg%d" % no)(cell_choice=choice)
         self.sg = g
         self.no, self.choice = no, choice
         self.name = g.name
@@ -107,6 +109,25 @@ def group(no, choice="standard"):
     if k not in _GROUPS:
         _GROUPS[k] = Group(no, choice)
     return _GROUPS[k]
+
+
+def sibling(no, choice):
+    """the other axis setting of an R-centred group (None for all other groups)"""
+    if no in RHOMB:
+        return (no, "standard" if choice == "rhombohedral" else "rhombohedral")
+    return None
+
+
+def touch_sibling(no, choice):
+    """History element: use the other setting of the same group number right before the call under test, the way a
+    program that handles both settings of an R group would (exposes state shared between settings)."""
+    sib = sibling(no, choice)
+    if sib is not None:
+        from xfab import sg
+        sg.sg(sgno=sib[0], cell_choice=sib[1])
+        g = group(*sib)
+        sg.sg(sgname=g.name)
+    return sib
 
 
 def reset_cache():
